@@ -156,7 +156,7 @@ func c13mClient(addr string, steps []c13mStep) []string {
 		if conn == nil {
 			return "noconn"
 		}
-		conn.SetReadDeadline(time.Now().Add(300 * time.Millisecond))
+		conn.SetReadDeadline(time.Now().Add(150 * time.Millisecond))
 		p, err := packets.ReadPacket(conn)
 		if err != nil {
 			return "none"
